@@ -84,6 +84,22 @@ def BOUNDED(tier, seed):
             fail('input_conversion', f'model received {seen[-1].tolist()} for names {names} and input {xp}')
     if any(o != outs[0] for o in outs) or outs[0] != {'output': 321.0}:
         fail('input_conversion', f'results depend on the key order or on extra features: {outs}')
+    # 2b. batch calls with feature names: every row is converted by name (rows may differ in key order / carry extra features)
+    rows = [{'b': 1.0, 'a': 2.0, 'c': 3.0}, {'c': 6.0, 'a': 5.0, 'b': 4.0}, {'a': 8.0, 'extra': 1000.0, 'b': 7.0, 'c': 9.0},
+            {'b': 10.0, 'a': 11.0, 'c': 12.0}]
+    for order in (rows, rows[::-1], [rows[1], rows[0], rows[2]]):
+        seen.clear()
+        evals += 1
+        distinct.add(('batch_named', tuple(tuple(r) for r in order)))
+        try:
+            got = wn(list(order))
+            exp_matrix = [[r[k] for k in names] for r in order]
+            if [list(map(float, r)) for r in seen[-1]] != exp_matrix or got != [{'output': float(sum(m))} for m in exp_matrix] \
+                    or got != [wn(r) for r in order]:
+                fail('batch_input_conversion', f'batch with differently ordered rows: model received {seen[-1].tolist()}, expected {exp_matrix}; '
+                     f'result {got}')
+        except Exception as ex:   # noqa
+            fail('batch_input_conversion', f'batch with differently ordered rows / extra features raised {ex!r}')
     # 3. batch input = list of canonical dicts of the rows, equal to one-at-a-time calls for row-wise models
     for nout, f in (('scalar', lambda a: np.asarray(a, dtype=float).sum(axis=1)),
                     ('col', lambda a: np.asarray(a, dtype=float).sum(axis=1).reshape(-1, 1)),
